@@ -1,6 +1,7 @@
 //! sasverif: property-based verification harness for mishamsk/sas-lexer (see /verif/DESIGN.md)
 pub mod api;
 pub mod core;
+pub mod fuzz;
 pub mod gen;
 pub mod kf;
 pub mod oracle;
